@@ -477,7 +477,13 @@ class Exec:
                               'det': self._det, 'step': len(self.actions)})
         if pkts and any(t == 3 for t, _ in pkts):
             s.ping_pending = False
-            s.pongs.append(self.now)
+            # the PONG counts for the model only if the server certainly reads it: whole body
+            # declared, within the limits, nothing before it that ends the processing
+            k = [t for t, _ in pkts].index(3)
+            limit = self.config.get('max_http_buffer_size', 1000000)
+            if declared is None and len(body) <= limit and len(pkts) <= 16 and \
+                    all(t in (3, 4, 5) for t, _ in pkts[:k]):
+                s.pongs.append(self.now)
 
     def op_upg_connect(self, a):
         s = self.sess(a['s'])
